@@ -142,7 +142,7 @@ UNITS["C09"] = [
          trusted=["real `bytes` crate from the cargo registry; SqliteValue Text/Blob payload types replaced by String/Vec<u8> in this harness crate"],
          assumptions=["the extension's packing rule is taken from its documentation: minimal big-endian width of the value seen as u64"]),
     dict(kind="verus", name="c09_packfmt", template="specs/c09_packfmt.vrs",
-         under_contract=["unpack_columns", "pack_columns", "ColumnType::from_u8"], vacuity=["unpack_columns", "pack_columns"], replay="c09_packfmt",
+         under_contract=["unpack_columns", "pack_columns", "ColumnType::from_u8", "lemma_pack_unpack_roundtrip", "lemma_dec_col", "lemma_be_roundtrip"], vacuity=["unpack_columns", "pack_columns"], replay="c09_packfmt",
          assumptions=["contract of bytes::Buf for &[u8] written from the bytes 1.10.1 sources (get_int sign-extends; getters panic past the end, on nbytes > 8, and get_int(0) overflows a shift in debug builds)",
                       "f64 payloads are opaque: get_f64/put_f64 are inverse on 8 bytes (assumed)"]),
     dict(kind="verus", name="c09_readers", template="specs/c09_readers.vrs",
